@@ -180,9 +180,9 @@ func storeRunBus(c string) string {
 		var err error
 		switch p[0] {
 		case "np":
-			err = client.SendNodePoints(b.nc, string(unhx(p[1])), parseSpts(p[2]), true)
+			err = noteTmo(client.SendNodePoints(b.nc, string(unhx(p[1])), parseSpts(p[2]), true))
 		case "ep":
-			err = client.SendEdgePoints(b.nc, string(unhx(p[1])), string(unhx(p[2])), parseSpts(p[3]), true)
+			err = noteTmo(client.SendEdgePoints(b.nc, string(unhx(p[1])), string(unhx(p[2])), parseSpts(p[3]), true))
 		default:
 			panic("store bus: bad op " + p[0])
 		}
